@@ -197,9 +197,24 @@ def oracle_events(o, program, refres, n_mgrs):
     return out
 
 
+def undelivered_bodies(o):
+    fired = {l for l in o.fire_log if l[0] == 'exec'}
+    pending = sorted((l for l in o.pending_ext if l[0] == 'exec'), key=lambda l: l[3])
+    out = set()
+    for b in o.bodies:
+        labs = [l for l in pending if l[2] == b['node'] and l[3] < b['seq']]
+        if labs:
+            lab = max(labs, key=lambda l: l[3])
+            later_fired = [f for f in fired if f[2] == b['node'] and lab[3] < f[3] < b['seq']]
+            if not later_fired:
+                out.add(b['seq'])
+    return out
+
+
 def _events_one_manager(o, ev0, comp):
     out = []
     evs = ev0
+    undelivered = undelivered_bodies(o)
     hooks = [e['hook'] for e in ev0]
     if hooks[0] != 'on_pipeline_start' or hooks.count('on_pipeline_start') != 1:
         out.append(('pipeline-start-misplaced', f'{hooks[:4]}... count={hooks.count("on_pipeline_start")}'))
@@ -254,7 +269,10 @@ def _events_one_manager(o, ev0, comp):
                     out.append(('missing-node-complete', f'{nid}: start without complete in a successful run'))
                 continue
             forced_default = not mine and any(x['start']['seq'] < d['seq'] < hi for d in defaults.get(nid, []))
-            finished = [b for b in mine if b.get('outcome') is not None]
+            # an attempt is finished for the engine when its body returned AND (executor modes) the completion was
+            # delivered to the loop; a body the fake executor ran at submit time whose result never reached the loop
+            # before the run ended is an attempt in flight
+            finished = [b for b in mine if b.get('outcome') is not None and b['seq'] not in undelivered]
             if len(finished) < len(mine):
                 # the run ended while an attempt was in flight: that attempt has no complete
                 if len(comps) != len(finished):
@@ -264,6 +282,15 @@ def _events_one_manager(o, ev0, comp):
                     if c.get('error') is None:
                         out.append(('intermediate-complete-without-error', f'{nid}'))
                 continue
+            if mine and len(comps) == len(mine) - 1 and all(c.get('error') is not None for c in comps):
+                # the last attempt returned (or its completion was delivered) in the very loop step in which the run
+                # ended: the engine never got to process it. Legal as long as nobody consumed its value.
+                last = mine[-1]
+                consumed = last.get('outcome') == 'ok' and any(
+                    R.is_value(v) and R.canon(v) == R.canon(last.get('value'))
+                    for b in o.bodies for v in b['kwargs'].values())
+                if not consumed:
+                    continue
             if len(comps) != max(1, len(mine)) and not forced_default:
                 out.append(('complete-count', f'{nid}: {len(mine)} attempts but {len(comps)} on_node_complete'))
             for c in comps[:-1]:
